@@ -581,6 +581,25 @@ func (w *World) noteInlinedTwin(plain string, v ssa.Value) {
 	w.inlTwin[plain] = tw
 }
 
+// canonCallArgsI: the call as written, with the one-expression helpers in its
+// arguments inlined but the callee itself kept (canonCallI would look through a
+// callee that is a one-line wrapper).
+func (w *World) canonCallArgsI(c *ssa.CallCommon) string {
+	f := c.StaticCallee()
+	if f == nil || f.Signature.Recv() == nil || len(c.Args) == 0 {
+		return w.canonCall(c, 0)
+	}
+	var as []string
+	for _, a := range c.Args[1:] {
+		as = append(as, w.CanonI(a))
+	}
+	name := f.Name()
+	if o := f.Origin(); o != nil {
+		name = o.Name()
+	}
+	return w.Canon(c.Args[0]) + "." + name + "(" + strings.Join(as, ", ") + ")"
+}
+
 // CanonDeep: CanonI with helpers inlined through up to six levels.
 func (w *World) CanonDeep(v ssa.Value) string {
 	w.inlineDeep = true
